@@ -15,4 +15,23 @@ def run(tier):
     if isinstance(res, int):
         return res
     ctx, cases, mo, io = res
+    # Once with a panicking initialiser is outside the program language (the body must catch the panic): two directed probes.
+    # After a caught panic of the first initialiser, two threads call call_once_force: (0) under one scripted schedule in
+    # which the second caller queues on the cell's internal lock before the first publishes completion and gets the lock
+    # after the first has returned, (1) under every schedule.  Exactly one initialiser must run to completion.
+    from common import load_known_findings
+    known = {k["id"]: k for k in load_known_findings() if k.get("kind") == "known"}
+    probes = ["probe oncepoison 0", "probe oncepoison 1"]
+    po = ctx.run_impl("prog", probes)
+    ctx.evaluations += len(probes)
+    for c, o in zip(probes, po):
+        if o.startswith("PROBE OK"):
+            continue
+        if "poisoned-mutex-assertion" in o and c.endswith(" 1") and "F39" in known:
+            ctx.known("F39", known["F39"]["what"])
+            continue
+        ctx.violation({"layer": "prog", "cases": [c], "implementation_answer": o[:400],
+                       "why": ("two initialisers ran to completion on one Once after a poisoning panic" if "two-initialisers" in o
+                               else "call_once_force after a poisoning panic does not run exactly one initialiser to completion: " + o[:120])})
+    ctx.dist("probes.oncepoison", len(probes))
     return ctx.finish()
